@@ -13,7 +13,9 @@
 //!
 //! `<intended>` = `nterms { neg cm cs dm ds nv { cp eneg em es fm fs }* }*`: coefficient
 //! ±(cm/10^cs)/(dm/10^ds) (dm = 0: no denominator), per variable the code point and exponent
-//! ±(em/10^es)/(fm/10^fs) (fm = 0: no denominator).  Only the Python oracle reads it.
+//! ±(em/10^es)/(fm/10^fs) (fm = 0: no denominator).  Only the Python oracle reads it.  A variable that occurs several
+//! times in a term is listed once per OCCURRENCE, in order (the oracle adds the exponents: exactly for the meaning, in
+//! binary64 from left to right for the stored number).
 use crate::polyio::*;
 use crate::polyops;
 use crate::util::*;
@@ -418,6 +420,7 @@ pub fn generate(seed: u64, thorough: bool, emit: &mut dyn FnMut(String)) {
     }
     hardening_families(seed, thorough, emit);
     word_families(seed, thorough, emit);
+    near_special_families(seed, thorough, emit);
 }
 
 // ------------------------------------------------------------------------------------ hardening families
@@ -1398,6 +1401,342 @@ pub fn word_families(seed: u64, thorough: bool, emit: &mut dyn FnMut(String)) {
             let t = WTerm::word(&w).coef(xint(false, 0, "0"));
             send(&mut rng, emit, &[t.clone()], "", "", true);
             send(&mut rng, emit, &[t.neg(), plain(Some(two()), "", false)], "", "", false);
+        }
+    }
+}
+
+// ------------------------------------------------------------------------------------ round-4 families: narrow windows
+//
+// NARROW WINDOWS AROUND SPECIAL VALUES reached only through particular spellings: a "whole up to rounding" snap, an
+// "is it 1 / 0 / -1" test with a tolerance, a fast path for "the exponent is one half" ... show only when a number lies
+// within 1e-9..1e-17 of the special value WITHOUT being it, and only through the branch that reads that spelling:
+//   (N1) fraction exponents and fraction coefficients written as ratios of huge integers a/b, a = k b +- 1, 2, 3 with b
+//        from 1e3 to 1e17 (powers of ten, their multiples, random integers, 2^52, 2^53 and neighbours), k = 0, 1, 2, 3, 5,
+//        10 of either sign; the same next to the simple fractions 1/2, 1/3, 2/3, 3/2, 1/4, 5/2 (b = q m, a = p m +- d);
+//   (N2) decimal spellings next to whole numbers and next to 1/2 at every distance 10^-1..10^-20, as exponent, as
+//        coefficient, and as numerator / denominator of a fraction ("3.0000000003/3", "1/0.9999999999");
+//   (N3) exponents that MERGE (a repeated variable multiplies: its exponents are added in the order of occurrence) to
+//        a value one or two units in the last place from 1, 0, -1, 2, 1/2 (x^0.6x^0.3x^0.1, ten factors x^0.1,
+//        x^0.4x^-1.4, x^0.1x^0.2x^-0.3) or to such a value +- 1e-10..1e-16 in exact arithmetic; pieces spelled as
+//        decimals or as fractions, other variables in between.
+// The `<intended>` list of a term names every OCCURRENCE of a variable in order (a repeated code point): the oracle
+// adds the exponents exactly (meaning) and in binary64 from left to right (the stored number), see tools/props/c02.py.
+
+/// decimal string of `v / 10^scale` (v >= 0), e.g. (10000000005, 10) -> "1.0000000005"; style 1 drops a leading "0"
+fn dec_text(v: u128, scale: u32, style: u64) -> String {
+    let digits = v.to_string();
+    if scale == 0 {
+        return digits;
+    }
+    let s = scale as usize;
+    let padded = if digits.len() <= s { format!("{}{}", "0".repeat(s + 1 - digits.len()), digits) } else { digits };
+    let (int, frac) = padded.split_at(padded.len() - s);
+    if style == 1 && int == "0" { format!(".{frac}") } else { format!("{int}.{frac}") }
+}
+
+/// a denominator between 1e3 and 1e17 (sometimes a little beyond 2^53, where the operands themselves are rounded)
+fn huge_den(rng: &mut Rng) -> u128 {
+    let j = rng.range(3, 17) as u32;
+    match rng.below(7) {
+        0 => 10u128.pow(j),
+        1 => rng.range(2, 9) as u128 * 10u128.pow(j.min(16)),
+        2 => 10u128.pow(j) + rng.range(1, 999) as u128,
+        3 => {
+            // random integer with j + 1 digits
+            let lo = 10u128.pow(j);
+            lo + (rng.next() as u128 * 7919) % (9 * lo)
+        }
+        4 => *rng.pick(&[1u128 << 30, 1 << 31, 1 << 32, (1 << 32) + 1, 1 << 40, 1 << 52, (1 << 52) + 1, 1 << 53, (1 << 53) - 1, (1 << 53) + 2, 1 << 56]),
+        5 => *rng.pick(&[1_000_000_000u128, 2_000_000_000, 999_999_999, 1_000_000_001, 4_000_000_000, 2_500_000_000, 12_345_678_901]),
+        _ => 3u128.pow(rng.range(7, 35) as u32),
+    }
+}
+
+/// `a/b` within d/b of the whole number k (|k| <= 10, k may be 0) or of the simple fraction p/q
+fn near_ratio(rng: &mut Rng, allow_negative: bool) -> XNum {
+    let d = *rng.pick(&[1u128, 1, 1, 2, 3]);
+    let (a, b) = if rng.chance(2, 3) {
+        let b = huge_den(rng);
+        let k = *rng.pick(&[1u128, 1, 1, 2, 2, 3, 5, 10, 0]);
+        let a = if k == 0 || rng.chance(1, 2) { k * b + d } else { k * b - d };
+        (a, b)
+    } else {
+        let (p, q) = *rng.pick(&[(1u128, 2u128), (1, 2), (1, 3), (2, 3), (3, 2), (1, 4), (5, 2), (4, 3)]);
+        let m = huge_den(rng) / q + 1;
+        let a = if rng.chance(1, 2) { p * m + d } else { p * m - d };
+        (a, q * m)
+    };
+    let neg = allow_negative && rng.chance(1, 3);
+    let (ta, tb) = (a.to_string(), b.to_string());
+    xfrac(neg, &ta, 0, &tb, 0, &format!("{}{ta}/{tb}", if neg { "-" } else { "" }))
+}
+
+/// a decimal within digit * 10^-j of the whole number k or of k + 1/2
+fn near_decimal(rng: &mut Rng, allow_negative: bool) -> XNum {
+    let j = rng.range(1, 20) as u32;
+    let k = *rng.pick(&[1u128, 1, 1, 2, 3, 0, 10]);
+    let half = rng.chance(1, 5);
+    let digit = *rng.pick(&[1u128, 1, 5, 3, 9]);
+    let base = k * 10u128.pow(j) + if half { 5 * 10u128.pow(j - 1) } else { 0 };
+    let v = if base <= digit || rng.chance(1, 2) { base + digit } else { base - digit };
+    let neg = allow_negative && rng.chance(1, 3);
+    let t = dec_text(v, j, rng.below(3));
+    xdec(neg, &v.to_string(), j, &format!("{}{t}", if neg { "-" } else { "" }))
+}
+
+/// a fraction whose numerator or denominator is a decimal, the quotient next to a whole number
+fn near_decimal_ratio(rng: &mut Rng, allow_negative: bool) -> XNum {
+    let j = rng.range(6, 18) as u32;
+    let k = *rng.pick(&[1u128, 1, 2, 3]);
+    let q = *rng.pick(&[1u128, 1, 2, 3, 4, 7]);
+    let digit = *rng.pick(&[1u128, 2, 5]);
+    let neg = allow_negative && rng.chance(1, 3);
+    let sign = if neg { "-" } else { "" };
+    if rng.chance(2, 3) {
+        // (k q +- digit 10^-j) / q
+        let v = if rng.chance(1, 2) { k * q * 10u128.pow(j) + digit } else { k * q * 10u128.pow(j) - digit };
+        let ta = dec_text(v, j, 0);
+        xfrac(neg, &v.to_string(), j, &q.to_string(), 0, &format!("{sign}{ta}/{q}"))
+    } else {
+        // k / (1 +- digit 10^-j)
+        let v = if rng.chance(1, 2) { 10u128.pow(j) + digit } else { 10u128.pow(j) - digit };
+        let tb = dec_text(v, j, rng.below(2));
+        xfrac(neg, &k.to_string(), 0, &v.to_string(), j, &format!("{sign}{k}/{tb}"))
+    }
+}
+
+/// hundredths -> spelling as a decimal ("0.35", "-1.4", ".5") or as a fraction ("7/20", "-7/5")
+fn piece_xnum(rng: &mut Rng, h: i64) -> XNum {
+    let neg = h < 0;
+    let a = h.unsigned_abs();
+    let sign = if neg { "-" } else { "" };
+    match rng.below(4) {
+        0 => {
+            let g = gcd(a as i64, 100) as u64;
+            let (n, d) = (a / g, 100 / g);
+            if d == 1 { xint(neg, n, &format!("{sign}{n}")) } else { xfrac(neg, &n.to_string(), 0, &d.to_string(), 0, &format!("{sign}{n}/{d}")) }
+        }
+        1 if a % 10 == 0 => xdec(neg, &(a / 10).to_string(), 1, &format!("{sign}{}", dec_text((a / 10) as u128, 1, 0))),
+        2 => xdec(neg, &a.to_string(), 2, &format!("{sign}{}", dec_text(a as u128, 2, 1))),
+        _ => {
+            let (v, s) = if a % 10 == 0 { (a / 10, 1) } else { (a, 2) };
+            if a % 100 == 0 && rng.chance(1, 2) { xint(neg, a / 100, &format!("{sign}{}", a / 100)) } else { xdec(neg, &v.to_string(), s, &format!("{sign}{}", dec_text(v as u128, s, 0))) }
+        }
+    }
+}
+
+pub fn near_special_families(seed: u64, thorough: bool, emit: &mut dyn FnMut(String)) {
+    let mut rng = Rng::new(Rng::new(seed ^ 0xC02_0004).next());
+    let mul = if thorough { 12 } else { 1 };
+    let mut idx = 0usize;
+    let mut pp = |emit: &mut dyn FnMut(String), text: &str, want: &str, binds: &[(String, f64)]| {
+        emit(format!("parse {} {} | {}", idx % 2, req_string(text), want));
+        emit(format!("pe {} {} | {}", req_string(text), binds_text(binds), want));
+        idx += 1;
+    };
+    let b = |c: char, v: f64| (c.to_string(), v);
+    // positive values of every magnitude with exact 12th roots; away from 1 most of the time (an exponent that is off by
+    // 1e-9 moves x^e by 1e-9 |ln x|)
+    let far12 = |rng: &mut Rng| -> f64 {
+        match rng.below(4) {
+            0 => wide12(rng),
+            1 => 2f64.powi(12 * *rng.pick(&[5i32, 6, -5, -6, 4, -4])),
+            _ => (*rng.pick(&[3.0f64, 5.0, 1.5, 2.5, 0.75]) * 2f64.powi(rng.range(-5, 4) as i32)).powi(12),
+        }
+    };
+
+    // ---- (N1) + (N2): one near-special number per term, as exponent or as coefficient
+    for i in 0..700 * mul {
+        let x = *rng.pick(&['x', 'y', 't', 'a', 'Z']);
+        let other = if x == 'y' { 'x' } else { 'y' };
+        let special = |rng: &mut Rng, as_exp: bool| -> XNum {
+            match rng.below(10) {
+                0..=5 => near_ratio(rng, as_exp),
+                6 | 7 => near_decimal(rng, as_exp),
+                _ => near_decimal_ratio(rng, as_exp),
+            }
+        };
+        let mut terms: Vec<XTerm> = Vec::new();
+        let as_coef = i % 4 == 3;
+        let mut t = XTerm { neg: rng.chance(1, 3), coef: None, vars: vec![] };
+        if as_coef {
+            t.coef = Some(special(&mut rng, false));
+            if rng.chance(2, 3) {
+                t.vars.push((x, xn_opt(gen_exp(&mut rng))));
+            }
+        } else {
+            t.coef = match rng.below(4) {
+                0 => None,
+                1 => Some(special(&mut rng, false)),
+                _ => gen_coeff(&mut rng).as_ref().map(xn),
+            };
+            t.vars.push((x, Some(special(&mut rng, true))));
+        }
+        if rng.chance(1, 3) {
+            let e = if rng.chance(1, 3) { Some(special(&mut rng, true)) } else { xn_opt(gen_exp(&mut rng)) };
+            let at = rng.below(t.vars.len() as u64 + 1) as usize;
+            t.vars.insert(at, (other, e));
+        }
+        terms.push(t);
+        if rng.chance(1, 3) {
+            terms.push(xt(&gen_iterm(&mut rng, &[x, other], false)));
+            if rng.chance(1, 2) {
+                terms.swap(0, 1);
+            }
+        }
+        let spacing = *rng.pick(&[0u64, 0, 0, 3]);
+        let text = xrender(&mut rng, &terms, spacing);
+        let binds = vec![b(x, far12(&mut rng)), b(other, wide12(&mut rng))];
+        pp(emit, &text, &xintended(&terms), &binds);
+    }
+
+    // ---- (N3) merging exponents
+    let fixed: Vec<Vec<i64>> = vec![
+        vec![60, 30, 10], vec![10; 10], vec![40, -140], vec![70, 20, 10], vec![10, 20, -30], vec![110, -10], vec![30, -130], vec![220, -20],
+        vec![10, 20, 30, 40], vec![-60, -30, -10], vec![10, 70, 20], vec![30, 60, 10], vec![15, 35, 50], vec![1, 99], vec![33, 33, 34], vec![-70, -20, -10],
+        vec![160, 30, 10], vec![10, 10, 10, 20], vec![5, 5, 5, 5, 80], vec![70, 10, 20, -100], vec![80, -70, -10], vec![20, 10, 70, 100], vec![90, 10, -200],
+        vec![30, 20], vec![10, 40], vec![60, -10], vec![20; 5], vec![30; 10], vec![70; 10], vec![-10; 10], vec![110, 220, -330], vec![10, 20, 30, -60],
+    ];
+    let nrand = 260 * mul;
+    let nfixed = fixed.len() * (if thorough { 3 } else { 1 });
+    for i in 0..nfixed + nrand {
+        let x = *rng.pick(&['x', 'y', 'q', 'B']);
+        let other = if x == 'y' { 'z' } else { 'y' };
+        let hs: Vec<i64> = if i < nfixed {
+            fixed[i % fixed.len()].clone()
+        } else {
+            // k - 1 random pieces of one or two decimals, the last one completes the target
+            let target = *rng.pick(&[100i64, 100, 100, 0, -100, 200, 50, 300, -50]);
+            let k = rng.range(2, 10) as usize;
+            let mut hs: Vec<i64> = (0..k - 1)
+                .map(|_| if rng.chance(1, 2) { rng.range(-20, 20) * 10 } else { rng.range(-150, 150) })
+                .map(|h| if h == 0 { 10 } else { h })
+                .collect();
+            let rest = target - hs.iter().sum::<i64>();
+            hs.push(if rest == 0 { 100 } else { rest });
+            if rest == 0 {
+                hs.push(-100);
+            }
+            if rng.chance(1, 2) {
+                let k = hs.len();
+                hs.swap(k - 1, rng.below(k as u64) as usize);
+            }
+            hs
+        };
+        let mut pieces: Vec<XNum> = hs.iter().map(|h| piece_xnum(&mut rng, *h)).collect();
+        // one time in three the exact sum is NOT the special value but 1e-10..1e-17 away from it: one piece carries the
+        // deviation ("0.1000000001")
+        if i >= fixed.len() && rng.chance(1, 3) {
+            let k = rng.below(pieces.len() as u64) as usize;
+            let j = rng.range(10, 19) as u32;
+            let h = hs[k];
+            let v = (h.unsigned_abs() as u128) * 10u128.pow(j - 2);
+            let d = *rng.pick(&[1u128, 2, 5]);
+            let v = if h.unsigned_abs() == 0 || rng.chance(1, 2) { v + d } else { v - d };
+            let sign = if h < 0 { "-" } else { "" };
+            pieces[k] = xdec(h < 0, &v.to_string(), j, &format!("{sign}{}", dec_text(v, j, 0)));
+        }
+        let mut vars: Vec<(char, Option<XNum>)> = pieces.into_iter().map(|p| (x, Some(p))).collect();
+        // a bare occurrence (exponent 1) and other variables in between
+        if rng.chance(1, 5) {
+            let at = rng.below(vars.len() as u64 + 1) as usize;
+            vars.insert(at, (x, None));
+        }
+        for _ in 0..rng.below(3) {
+            let at = rng.below(vars.len() as u64 + 1) as usize;
+            vars.insert(at, (other, xn_opt(gen_exp(&mut rng))));
+        }
+        let coef = if rng.chance(1, 2) { None } else { gen_coeff(&mut rng).as_ref().map(xn) };
+        let mut terms = vec![XTerm { neg: rng.chance(1, 3), coef, vars }];
+        if rng.chance(1, 4) {
+            terms.push(xt(&gen_iterm(&mut rng, &[x, other], false)));
+        }
+        let spacing = *rng.pick(&[0u64, 0, 0, 2]);
+        let text = xrender(&mut rng, &terms, spacing);
+        let binds = vec![b(x, far12(&mut rng)), b(other, base12(&mut rng))];
+        pp(emit, &text, &xintended(&terms), &binds);
+    }
+
+    // ---- (N4) DUPLICATES (identity vs equality): the same term several times in one text (`x + y + x` is three terms,
+    //      nothing merges them), the same variable in neighbouring terms, `p + p`, a term and its negative: a parser that
+    //      looks a term / a variable up by VALUE (de-duplicates terms, builds the variable list from adjacent
+    //      comparisons, reuses "the" index of an equal term) only fails on these
+    for i in 0..260 * mul {
+        let psize = 1 + rng.below(3) as usize;
+        let mut pool: Vec<char> = Vec::new();
+        while pool.len() < psize {
+            let c = *rng.pick(LETTERS);
+            if !pool.contains(&c) {
+                pool.push(c);
+            }
+        }
+        let nt = 2 + rng.below(4) as usize;
+        let mut terms: Vec<XTerm> = (0..nt).map(|_| xt(&gen_iterm(&mut rng, &pool, false))).collect();
+        match i % 6 {
+            0 => {
+                let k = 1 + rng.below(nt as u64 - 1) as usize;
+                terms[k] = terms[0].clone();
+            }
+            1 => terms[nt - 1] = terms[0].clone(),
+            2 => {
+                let t = terms[rng.below(nt as u64) as usize].clone();
+                for u in terms.iter_mut() {
+                    *u = t.clone();
+                }
+            }
+            3 => {
+                let k = rng.below(nt as u64 - 1) as usize;
+                terms[k + 1] = terms[k].clone();
+                terms[k + 1].neg = !terms[k].neg;
+            }
+            4 => {
+                let half: Vec<XTerm> = terms[..nt.div_ceil(2)].to_vec();
+                terms = half.iter().chain(half.iter()).cloned().collect();
+            }
+            _ => {
+                // the same variables (other exponents / coefficients) in neighbouring terms
+                let k = rng.below(nt as u64 - 1) as usize;
+                let vars: Vec<(char, Option<XNum>)> = terms[k].vars.iter().map(|(c, _)| (*c, xn_opt(gen_exp(&mut rng)))).collect();
+                terms[k + 1].vars = vars;
+                if terms[k + 1].vars.is_empty() && terms[k + 1].coef.is_none() {
+                    terms[k + 1].coef = Some(xint(false, 7, "7"));
+                }
+            }
+        }
+        let spacing = *rng.pick(&[0u64, 0, 2]);
+        let text = xrender(&mut rng, &terms, spacing);
+        let binds: Vec<(String, f64)> = pool.iter().map(|v| b(*v, base12(&mut rng))).collect();
+        pp(emit, &text, &xintended(&terms), &binds);
+    }
+
+    // ---- structures with exponents next to whole numbers and simple fractions (hand-built terms: the evaluator's own
+    //      fast paths and tolerances, K on the shared model + oracle)
+    use spindalis_core::polynomials::Term;
+    for _ in 0..300 * mul {
+        let base = *rng.pick(&[1.0f64, 1.0, 1.0, 0.0, -1.0, 2.0, 0.5, 3.0, -2.0, -0.5]);
+        let e = match rng.below(4) {
+            0 if base != 0.0 => f64::from_bits((base.to_bits() as i64 + *rng.pick(&[1i64, -1, 2, -2, 3, 4, -4])) as u64),
+            1 => base + 2f64.powi(-(rng.range(20, 52) as i32)) * if rng.chance(1, 2) { 1.0 } else { -1.0 },
+            _ => base + rng.uniform(0.2, 0.99) * 10f64.powi(-(rng.range(5, 16) as i32)) * if rng.chance(1, 2) { 1.0 } else { -1.0 },
+        };
+        let e = if base == 0.0 && rng.chance(1, 2) { f64::from_bits(rng.range(1, 4) as u64) * 2f64.powi(rng.range(0, 900) as i32) } else { e };
+        let mut terms = vec![Term { coefficient: *rng.pick(&[1.0, -1.0, 2.5, 0.5]), variables: vec![("x".to_string(), e)] }];
+        if rng.chance(1, 2) {
+            terms.push(Term { coefficient: rng.range(-3, 3) as f64, variables: vec![("x".to_string(), rng.range(0, 3) as f64)] });
+        }
+        if rng.chance(1, 3) {
+            terms[0].variables.push(("y".to_string(), polyops::rand_exponent(&mut rng)));
+        }
+        let two = terms.iter().any(|t| t.variables.len() > 1);
+        let p = IntermediatePolynomial { terms, variables: if two { vec!["x".to_string(), "y".to_string()] } else { vec!["x".to_string()] } };
+        let x = far12(&mut rng);
+        let mut binds = vec![("x".to_string(), x)];
+        if two {
+            binds.push(("y".to_string(), base12(&mut rng)));
+        }
+        emit(format!("evalm {} {}", req_inter(&p), binds_text(&binds)));
+        if !two {
+            emit(format!("eval {} {}", req_inter(&p), rbits(x)));
         }
     }
 }
